@@ -30,6 +30,7 @@ type Cfg struct {
 	NoClassSub    bool
 	NoProps       bool
 	RE2Common     bool // F-re2: only constructs shared with Go's regexp
+	Magic         bool // occasionally use repeat counts next to the size constants of the analyses (19..22, 31..33, 63..65)
 }
 
 var (
@@ -170,7 +171,24 @@ func (s *state) atom(t *rapid.T) *ast.Node {
 	}
 }
 
+// magicCounts sit next to size constants of the analyses (loop expansion 20, prefix cut-offs 32,
+// repeater/multi limit 64): sizes nobody aims at are not covered, so the generators aim at them.
+var magicCounts = []int{19, 20, 21, 22, 31, 32, 33, 63, 64, 65}
+
 func (s *state) quantBounds(t *rapid.T, q *ast.Node) {
+	if s.cfg.Magic && rapid.IntRange(0, 11).Draw(t, "magic") == 0 {
+		m := rapid.SampledFrom(magicCounts).Draw(t, "magiccount")
+		switch rapid.IntRange(0, 2).Draw(t, "magickind") {
+		case 0:
+			q.Min, q.Max = m, m
+		case 1:
+			q.Min, q.Max = m, -1
+		default:
+			q.Min, q.Max = m, m+2
+		}
+		q.Lazy = rapid.IntRange(0, 3).Draw(t, "lazy") == 0
+		return
+	}
 	switch rapid.IntRange(0, 8).Draw(t, "qkind") {
 	case 0:
 		q.Min, q.Max = 0, -1
@@ -198,7 +216,7 @@ func (s *state) node(t *rapid.T, d int) *ast.Node {
 	if d <= 0 {
 		return s.atom(t)
 	}
-	switch k := rapid.IntRange(0, 15).Draw(t, "node"); {
+	switch k := rapid.IntRange(0, 17).Draw(t, "node"); {
 	case k <= 2:
 		n := ast.Seq()
 		c := rapid.IntRange(2, 3).Draw(t, "seqlen")
@@ -341,6 +359,41 @@ func (s *state) node(t *rapid.T, d int) *ast.Node {
 		return ast.Seq(g, s.node(t, d-1), &ast.Node{K: ast.KBackref, Num: -1 - rapid.IntRange(0, 5).Draw(t, "refslot")})
 	case k == 14:
 		return ast.Group(ast.GAtomic, s.node(t, d-1))
+	case k == 16 && !s.cfg.NoAnchors:
+		// a single-character loop directly before an end / boundary anchor, possibly with more after it
+		var a *ast.Node
+		switch rapid.IntRange(0, 3).Draw(t, "loopatom") {
+		case 0:
+			a = &ast.Node{K: ast.KShort, S: rapid.SampledFrom(shorthands).Draw(t, "short")}
+		case 1:
+			a = ast.Dot()
+		case 2:
+			a = ast.Class(s.class(t, 0))
+		default:
+			a = ast.Lit(s.letter(t))
+		}
+		q := ast.Quant(a, 0, -1, false)
+		s.quantBounds(t, q)
+		var loop *ast.Node = q
+		if rapid.Bool().Draw(t, "loopcap") {
+			loop = ast.Group(ast.GCap, q)
+		}
+		seq := ast.Seq(s.atom(t), loop, ast.Anchor(rapid.SampledFrom([]string{"$", "$", `\Z`, `\z`, `\b`, `\B`}).Draw(t, "endanchor")))
+		if rapid.IntRange(0, 2).Draw(t, "afteranchor") == 0 {
+			seq.Kids = append(seq.Kids, ast.Lit('\n'))
+		}
+		return seq
+	case k == 15 && s.cfg.Full && !s.cfg.NoBackref:
+		// sparse explicitly numbered groups with a reference / group test to one of them
+		g1 := ast.Group(ast.GNumbered, s.node(t, d-1))
+		g1.Num = rapid.SampledFrom([]int{2, 3, 5}).Draw(t, "sparse1")
+		g2 := ast.Group(ast.GNumbered, s.node(t, d-1))
+		g2.Num = g1.Num + rapid.SampledFrom([]int{2, 4, 7}).Draw(t, "sparse2")
+		target := rapid.SampledFrom([]int{g1.Num, g2.Num}).Draw(t, "sparsetarget")
+		if rapid.IntRange(0, 2).Draw(t, "sparsecond") == 0 {
+			return ast.Seq(g1, g2, &ast.Node{K: ast.KCond, Num: target, Kids: []*ast.Node{nil, &ast.Node{K: ast.KBackref, Num: target}, s.atom(t)}})
+		}
+		return ast.Seq(g1, g2, &ast.Node{K: ast.KBackref, Num: target})
 	default:
 		return s.atom(t)
 	}
